@@ -252,6 +252,78 @@ class PopenInit(Contract):
         return out
 
 
+PTY = 'pexpect.pty_spawn.spawn'
+
+
+class SpawnOracle(Contract):
+    """spawn._spawn as seen by the constructor: records what it was given and which settings the object carried at
+    that moment (the body is verified on its own, contracts/utils.py SpawnLaunch, which reads self.cwd / env / echo /
+    ignore_sighup / encoding)"""
+    name = PTY + '._spawn'
+    only_in = 'ctor'
+    params = ['self', 'command', 'args', 'preexec_fn', 'dimensions']
+    defaults = dict(args=[], preexec_fn=None, dimensions=None)
+
+    def outcomes(self, v):
+        return [Ret(T.NoneT), Raises('ExceptionPexpect'), Raises('TypeError')]
+
+    def effects(self, v):
+        g = v.g
+        g['spawns'] = g.get('spawns', 0) + 1
+        for k in ('command', 'args', 'preexec_fn', 'dimensions'):
+            g['spawn.' + k] = getattr(v.old, k)
+        me = v.old.self
+        for k in ('cwd', 'env', 'echo', 'ignore_sighup', 'encoding'):
+            g['spawn.self.' + k] = getattr(me, k) if me.has(k) else 'unset'
+
+
+class PtyInit(Contract):
+    """pexpect.spawn(...): the base initialiser gets the stream options, and _spawn is entered once, with the command,
+    argument list, preexec hook and dimensions given, on an object that already carries the requested cwd, env, echo
+    and ignore_sighup (they are read by _spawn, so setting them afterwards would start the child without them)."""
+    name = PTY + '.__init__'
+    props = ('C07', 'C13', 'C06')
+    standin = False
+    only_in = 'ctor'
+    context = 'ctor'
+
+    def shape(self, b):
+        kind = b.choice('mode', ['b', 's'])
+        cmd = b.choice('command', ['none', 'some'])
+        env = b.choice('env', ['none', 'empty', 'some'])        # an empty environment is not "no environment given"
+        d = dict(self=b.obj('self', PTY, sealed=False),
+                 command=b.none() if cmd == 'none' else b.str('command', 's'),
+                 args=b.list([b.str('arg%d' % i, 's') for i in range(b.choice('nargs', [0, 1]))]),
+                 cwd=b.opt('cwd', lambda: b.str('cwd', 's')),
+                 env=b.none() if env == 'none' else (b.dict([], []) if env == 'empty' else b.dict([b.const('K')], [b.str('V', 's')])),
+                 ignore_sighup=b.bool('ignore_sighup'), echo=b.bool('echo'), preexec_fn=b.any('preexec_fn'),
+                 dimensions=b.opt('dimensions', lambda: b.tuple(b.int('rows'), b.int('cols'))), use_poll=b.bool('use_poll'))
+        d.update(common_args(b, kind))
+        return d
+
+    def exits(self, v):
+        return ('ExceptionPexpect', 'TypeError')
+
+    def ensures(self, v):
+        g = v.g
+        out = passes_through(v, BASE_ARGS)
+        if v.old.command is None:
+            return out + [('C13:nothing-started-without-a-command', g.get('spawns', 0) == 0)]
+        out += [('C13:the-child-is-started-once', g.get('spawns', 0) == 1)]
+        if g.get('spawns', 0) == 1:
+            out += [('C13:%s-handed-to-_spawn' % k, same_ref(g.get('spawn.' + k), getattr(v.old, k)))
+                    for k in ('command', 'args', 'preexec_fn')]
+            d, gd = v.old.dimensions, g.get('spawn.dimensions')
+            out += [('C13:dimensions-handed-to-_spawn', (gd is None) if d is None else
+                     (isinstance(gd, tuple) and len(gd) == 2 and And(eq(gd[0], d[0]), eq(gd[1], d[1]))))]
+            out += [('C13:%s-set-before-the-child-is-started' % k, same_ref(g.get('spawn.self.' + k), getattr(v.old, k)))
+                    for k in ('cwd', 'env', 'echo', 'ignore_sighup')]
+            out += [('C07:encoding-set-before-the-command-line-is-encoded', same_ref(g.get('spawn.self.encoding'), v.old.encoding))]
+        if v.raised is None:
+            out += [('C06:poll-or-select-as-requested', eq(v.new.self.use_poll, v.old.use_poll))]
+        return out
+
+
 def register(reg):
     reg.add_extern('codecs.getincrementaldecoder', CodecFactory)
     reg.add_extern('codecs.getincrementalencoder', CodecFactoryEnc)
@@ -264,3 +336,5 @@ def register(reg):
     reg.add(SockInit)
     reg.add_extern('subprocess.Popen', PopenOracle)
     reg.add(PopenInit)
+    reg.add(SpawnOracle)
+    reg.add(PtyInit)
